@@ -8,6 +8,7 @@ cp /repo/go.sum /verif/harness/go.sum
 cd /verif/harness
 case "$flavour" in
   plain)
-    go build -o "$out" ./cmd/vcheck ;;
+    [ -f /verif/.build/mapctl/overlay.json ] || python3 /verif/engine/mapctl/gen.py /verif/.build/mapctl
+    go build -overlay /verif/.build/mapctl/overlay.json -tags mapctl -o "$out" ./cmd/vcheck ;;
   *) echo "unknown flavour $flavour"; exit 2 ;;
 esac
